@@ -217,8 +217,11 @@ func (c *Certificate) isValid(certType int, currentChain []*Certificate, opts *V
 	}
 	if len(c.PermittedDNSDomains) > 0 {
 		ok := false
+		// An absolute host name (trailing dot) names the same host: the
+		// dot is ignored here as it is when the leaf's names are matched.
+		domain := strings.TrimSuffix(opts.DNSName, ".")
 		for _, constraint := range c.PermittedDNSDomains {
-			ok = matchNameConstraint(opts.DNSName, constraint)
+			ok = matchNameConstraint(domain, constraint)
 			if ok {
 				break
 			}
